@@ -146,19 +146,25 @@ func enumRootFacts(p *Prog) string {
 	}
 	info := cs.Pkg.TypesInfo
 	okEmpty := false
-	ast.Inspect(cs.Decl, func(n ast.Node) bool {
-		cl, ok := n.(*ast.CompositeLit)
-		if ok && isNamed(info.TypeOf(cl), modPath+"/config", "Method") {
-			em, _ := unaddr(compositeField(cl, "EnumMapping")).(*ast.CompositeLit)
-			fl, _ := ast.Unparen(compositeField(cl, "Fields")).(*ast.CompositeLit)
-			if em != nil && fl != nil && len(fl.Elts) == 0 {
-				if m, ok := ast.Unparen(compositeField(em, "Map")).(*ast.CompositeLit); ok && len(m.Elts) == 0 && compositeField(em, "Transformers") == nil {
-					okEmpty = true
+	var regionDecls []ast.Node
+	for _, rf := range p.Region("generator.(*generator).createSubMethod") {
+		regionDecls = append(regionDecls, rf.Decl)
+	}
+	for _, d := range regionDecls {
+		ast.Inspect(d, func(n ast.Node) bool {
+			cl, ok := n.(*ast.CompositeLit)
+			if ok && isNamed(info.TypeOf(cl), modPath+"/config", "Method") {
+				em, _ := unaddr(compositeField(cl, "EnumMapping")).(*ast.CompositeLit)
+				fl, _ := ast.Unparen(compositeField(cl, "Fields")).(*ast.CompositeLit)
+				if em != nil && fl != nil && len(fl.Elts) == 0 {
+					if m, ok := ast.Unparen(compositeField(em, "Map")).(*ast.CompositeLit); ok && len(m.Elts) == 0 && compositeField(em, "Transformers") == nil {
+						okEmpty = true
+					}
 				}
 			}
-		}
-		return true
-	})
+			return true
+		})
+	}
 	if !okEmpty {
 		return "generated sub-methods no longer start with empty Fields/EnumMapping"
 	}
@@ -456,11 +462,26 @@ func c05R5(p *Prog, r *Report) {
 		}
 		bad := ""
 		nOK, nNone, nAmb := 0, 0, 0
-		for _, b := range fsf.Blocks {
+		// FindField and the private helpers it hands the decision to
+		var blocks []*ssa.BasicBlock
+		regionObjs := map[*types.Func]bool{}
+		for _, rf := range p.Region("xtype.FindField") {
+			regionObjs[rf.Obj.Origin()] = true
+			if rsf := p.SSAFunc(rf); rsf != nil && rsf.Signature.Results().Len() == 2 {
+				blocks = append(blocks, rsf.Blocks...)
+			}
+		}
+		for _, b := range blocks {
 			for _, in := range b.Instrs {
 				ret, ok := in.(*ssa.Return)
 				if !ok || len(ret.Results) != 2 {
 					continue
+				}
+				// `return helper(…)`: the decision is the helper's
+				if ex, isEx := ret.Results[1].(*ssa.Extract); isEx {
+					if c, isC := ex.Tuple.(*ssa.Call); isC && ssaCalleeObj(c) != nil && regionObjs[ssaCalleeObj(c).Origin()] {
+						continue
+					}
 				}
 				switch {
 				case isNilConst(ret.Results[1]):
